@@ -30,6 +30,19 @@ Part "synh": Syntax histories inside ONE process: events P = Syntax.from_path(fi
     that has imported rich and rendered nothing (FRESH_WORKERS), every rendering is
     judged by the numbered oracle. Keys syntax/history/...: a failure of a later event
     that does not occur when the event is the first one of a fresh process.
+Part "tbk": frame KINDS x position in the chain: every calling level of module -> f1 -> f2
+    wraps its call in {plain, try/finally, except + bare raise, except + raise from,
+    with-block, generator}, the leaf wraps its raise in {plain, try/finally, with}; the
+    exception either leaves the module or is caught there and the Traceback is built two
+    lines later in the catching frame. Expected frames = tb_lineno of the entries of the
+    exception's __traceback__ / __cause__ / __context__ chain, walked by the harness.
+Part "synr": ONE Syntax object rendered three times (same console; consoles of different
+    width and encoding in between); each rendering is judged by the oracle and compared
+    with a fresh equal object. Keys syntax/rerender/...
+Console dimension: option slots enc (ascii, latin-1: ascii_only consoles) and
+    legacy_windows; P5 = full product indent_guides x enc x line_numbers x word_wrap x
+    every range on the shorter sources; every traceback module on utf-8 and ascii
+    consoles (latin-1 / legacy_windows on a sub-product).
 The source alphabet has a second stratum: sequences over {blank, plain, a line with a
 form feed in a string literal, a line with U+2028 and U+0085 in a comment} that contain
 a special line (ONE line for Python and split("\n"), several for str.splitlines); the
@@ -91,9 +104,14 @@ SPECIAL_MENU = ["", "x = 1", FF_LINE, LS_LINE]
 DROPPED_CONTROLS = {8: None, 11: None, 12: None, 13: None}
 LEXERS = ["python", "json", "html", "text", "nolexer"]
 BASE = {"ln": True, "start": 1, "hl": False, "ww": False, "cw": None, "ig": False,
-        "theme": "monokai", "W": 60, "tab": 4}
+        "theme": "monokai", "W": 60, "tab": 4, "enc": "utf-8", "lw": False}
+# enc = encoding of the console's file (anything not utf-* makes the console ascii_only), lw = legacy_windows
 SLOTS = [("ln", [False]), ("start", [5, 99]), ("hl", [True]), ("ww", [True]), ("cw", [10, 6]),
-         ("ig", [True]), ("theme", ["ansi_dark"]), ("W", [20]), ("tab", [2])]
+         ("ig", [True]), ("theme", ["ansi_dark"]), ("W", [20]), ("tab", [2]),
+         ("enc", ["ascii", "latin-1"]), ("lw", [True])]
+# P5: the full product of these slots (x every range) on the shorter sources for a known and the unknown lexer
+PRODUCT_SLOTS = [("ig", [False, True]), ("enc", ["utf-8", "ascii"]), ("ln", [True, False]), ("ww", [False, True])]
+PRODUCT_LEXERS = ("python", "nolexer")
 
 
 def _sources(maxn):
@@ -139,10 +157,23 @@ def _maxn(tier):
     return 3 if tier == "quick" else 4
 
 
-def _unit_cases(code, nseq, tier):
+def _product_vectors():
+    out = []
+    for vals in itertools.product(*[v for _n, v in PRODUCT_SLOTS]):
+        dev = {n: v for (n, _v), v in zip(PRODUCT_SLOTS, vals) if BASE[n] != v}
+        if len(dev) >= 2:            # 0 and 1 deviations x every range are P1 / P2
+            out.append(dev)
+    return out
+
+
+def _unit_cases(code, nseq, tier, lexer=None):
     """All (option-deviation dict, range) pairs for one (source, lexer) unit."""
     top = _maxn(tier)
     allr = _ranges(code)
+    if nseq < top and lexer in PRODUCT_LEXERS:       # P5
+        for dev in _product_vectors():
+            for r in allr:
+                yield dev, r
     for r in allr:                                   # P1
         yield {}, r
     if nseq < top:                                   # P2
@@ -177,12 +208,26 @@ def _crash_key(prefix, exc):
 _CONSOLES = {}
 
 
-def _console(width):
+class _EncFile(io.StringIO):
+    """An in-memory text file that reports an encoding (Console derives ascii_only from it)."""
+
+    def __init__(self, encoding):
+        io.StringIO.__init__(self)
+        self._enc = encoding
+
+    @property
+    def encoding(self):
+        return self._enc
+
+
+def _console(width, enc="utf-8", lw=False):
     from rich.console import Console
-    c = _CONSOLES.get(width)
+    key = (width, enc, lw)
+    c = _CONSOLES.get(key)
     if c is None:
-        c = _CONSOLES[width] = Console(file=io.StringIO(), width=width, height=25, force_terminal=True,
-                                       color_system="truecolor", legacy_windows=False, _environ={})
+        c = _CONSOLES[key] = Console(file=_EncFile(enc), width=width, height=25, force_terminal=True,
+                                     color_system="truecolor", legacy_windows=lw, _environ={})
+        assert c.options.ascii_only == (not enc.startswith("utf")), (enc, c.encoding)
     return c
 
 
@@ -223,7 +268,7 @@ def _piece_ok(pieces, src, avail, ww, guides):
     return len(pieces) == 1 and src.startswith(pieces[0].rstrip())
 
 
-_RE_HEAD = re.compile(r"(  |%s )( *)(\d+) " % MARK)
+_RE_HEAD = re.compile(r"(  |%s |> )( *)(\d+) " % MARK)    # "> " is the pointer under legacy_windows
 
 
 def _parse_numbered(out_lines):
@@ -341,15 +386,22 @@ def _opts(dev):
     return o
 
 
-def render_syntax(code, lexer, o, rng):
+def make_syntax(code, lexer, o, rng):
     from rich.syntax import Syntax
-    console = _console(o["W"])
-    syn = Syntax(code, lexer, theme=o["theme"], line_numbers=o["ln"], start_line=o["start"],
-                 line_range=tuple(rng) if rng else None,
-                 highlight_lines={o["start"] + 1} if o["hl"] else None,
-                 code_width=o["cw"], tab_size=o["tab"], word_wrap=o["ww"], indent_guides=o["ig"])
+    return Syntax(code, lexer, theme=o["theme"], line_numbers=o["ln"], start_line=o["start"],
+                  line_range=tuple(rng) if rng else None,
+                  highlight_lines={o["start"] + 1} if o["hl"] else None,
+                  code_width=o["cw"], tab_size=o["tab"], word_wrap=o["ww"], indent_guides=o["ig"])
+
+
+def render_on(syn, o):
+    console = _console(o["W"], o["enc"], o["lw"])
     segs = list(console.render(syn, console.options))
     return "".join(seg.text for seg in segs if not seg.is_control)
+
+
+def render_syntax(code, lexer, o, rng):
+    return render_on(make_syntax(code, lexer, o, rng), o)
 
 
 def _drops_leading_blank(code, lexer, o, L, T, k):
@@ -365,21 +417,9 @@ def _drops_leading_blank(code, lexer, o, L, T, k):
         return False
 
 
-def check_syntax(code, lexer, dev, rng, res):
-    o = _opts(dev)
-    case = {"part": "syn", "code": code, "lexer": lexer, "dev": dev, "range": list(rng) if rng else None}
-    res.evaluations += 1
+def judge_syntax(code, lexer, o, rng, out):
+    """The Syntax oracle on one rendering `out` (plain characters). -> (None | (clause, message), shown, overflow)"""
     L, T = _src_lines(code, o["tab"])
-    rcls = _range_class(rng, T, len(L) - 1 if code.endswith("\n") else len(L))
-    known = lexer != "nolexer"
-    base_sig = ("syn", known, o["ln"], rcls, _leading_blank(L, T) > 0, o["start"] != 1)
-    try:
-        out = render_syntax(code, lexer, o, rng)
-    except Exception as e:   # noqa: BLE001 -- any exception of the code under test is a verdict
-        key = _crash_key("syntax", e)
-        res.violate(key, case, "%s: %s" % (type(e).__name__, e))
-        res.sig(base_sig + ("crash",))
-        return
     out_lines = out.split("\n")
     if out_lines[-1] == "":
         out_lines.pop()
@@ -388,9 +428,7 @@ def check_syntax(code, lexer, dev, rng, res):
     if o["ln"]:
         rows, g = _parse_numbered(out_lines)
         if rows is None:
-            res.violate("syntax/gutter-malformed", case, "cannot split %r into marker, number, code" % out_lines)
-            res.sig(base_sig + ("malformed",))
-            return
+            return ("gutter-malformed", "cannot split %r into marker, number, code" % out_lines), 0, overflow
         avail = o["cw"] if o["cw"] is not None else o["W"] - g - 1
         prob = _numbered_problem(rows, L, T, rng, o["start"], avail, o["ww"], o["ig"])
         if prob and k:
@@ -425,7 +463,29 @@ def check_syntax(code, lexer, dev, rng, res):
                     "the rendering is that of the source without its %d leading blank line(s): %r" % (k, out_lines))
         shown = len(out_lines)
     if prob:
-        res.violate("syntax/" + prob[0], case, "%s | source lines %r | rendered %r" % (prob[1], L, out_lines))
+        prob = (prob[0], "%s | source lines %r | rendered %r" % (prob[1], L, out_lines))
+    return prob, shown, overflow
+
+
+def check_syntax(code, lexer, dev, rng, res):
+    o = _opts(dev)
+    case = {"part": "syn", "code": code, "lexer": lexer, "dev": dev, "range": list(rng) if rng else None}
+    res.evaluations += 1
+    L, T = _src_lines(code, o["tab"])
+    rcls = _range_class(rng, T, len(L) - 1 if code.endswith("\n") else len(L))
+    known = lexer != "nolexer"
+    base_sig = ("syn", known, o["ln"], rcls, _leading_blank(L, T) > 0, o["start"] != 1,
+                o["enc"] != "utf-8", o["lw"])
+    try:
+        out = render_syntax(code, lexer, o, rng)
+    except Exception as e:   # noqa: BLE001 -- any exception of the code under test is a verdict
+        key = _crash_key("syntax", e)
+        res.violate(key, case, "%s: %s" % (type(e).__name__, e))
+        res.sig(base_sig + ("crash",))
+        return
+    prob, shown, overflow = judge_syntax(code, lexer, o, rng, out)
+    if prob:
+        res.violate("syntax/" + prob[0], case, prob[1])
     res.sig(base_sig + (min(shown, 3), overflow and (o["ww"] and "wrap" or "crop"), prob[0] if prob else "ok"),
             nontrivial=shown > 0)
 
@@ -441,11 +501,98 @@ def _part_syn(sh, tier, res):
             if deadline_passed():
                 res.capped = True
                 return
-            for dev, rng in _unit_cases(code, nseq, tier):
+            for dev, rng in _unit_cases(code, nseq, tier, lexer):
                 check_syntax(code, lexer, dev, rng, res)
             res.count("syn_units")
             if idx % 1777 == 0:
-                res.sample({"part": "syn", "code": code, "lexer": lexer, "cases": sum(1 for _ in _unit_cases(code, nseq, tier))})
+                res.sample({"part": "syn", "code": code, "lexer": lexer, "cases": sum(1 for _ in _unit_cases(code, nseq, tier, lexer))})
+
+
+# ------------------------------------------------------------------ part synr (one Syntax object rendered again)
+# The SAME Syntax object is rendered three times: on one console, and on consoles of different width and
+# encoding in between (Live / Layout refresh, print to two consoles, reuse after a resize). Every rendering is
+# judged by the normal oracle and must equal the rendering of a fresh, equal object on that console.
+R_DEVS = [{}, {"ig": True}, {"ww": True}, {"ln": False}]
+R_SEQS = [[(60, "utf-8"), (60, "utf-8"), (60, "utf-8")],
+          [(60, "utf-8"), (20, "ascii"), (60, "utf-8")]]
+
+
+def _rr_sources(tier):
+    menu = ["", "x = 1"] if tier == "quick" else ["", "x = 1", "\tif a:"]
+    seen, out = set(), []
+    for n in range(3 + 1):
+        for seq in itertools.product(menu, repeat=n):
+            for final in (1, 0, 2):
+                code = "\n".join(seq) + "\n" * final
+                if code not in seen:
+                    seen.add(code)
+                    out.append(code)
+    return out
+
+
+def _rr_lexers(tier):
+    return ["python", "nolexer"] if tier == "quick" else LEXERS
+
+
+def check_rerender(code, lexer, dev, rng, seq, res):
+    case = {"part": "synr", "code": code, "lexer": lexer, "dev": dev, "range": list(rng) if rng else None, "seq": seq}
+    o0 = _opts(dev)
+    try:
+        syn = make_syntax(code, lexer, o0, rng)
+    except Exception as e:   # noqa: BLE001
+        res.violate(_crash_key("syntax", e), case, "%s: %s" % (type(e).__name__, e))
+        return
+    for i, (width, enc) in enumerate(seq):
+        o = dict(o0, W=width, enc=enc)
+        res.evaluations += 1
+        prob = fresh_prob = None
+        try:
+            out = render_on(syn, o)
+        except Exception as e:   # noqa: BLE001
+            out = None
+            prob = (_crash_key("", e).lstrip("/"), "%s: %s" % (type(e).__name__, e))
+        if out is not None:
+            prob = judge_syntax(code, lexer, o, rng, out)[0]
+        if i:
+            # the same object again: compare with an equal object that was never rendered
+            try:
+                fresh = render_syntax(code, lexer, o, rng)
+                fresh_prob = judge_syntax(code, lexer, o, rng, fresh)[0]
+            except Exception:   # noqa: BLE001
+                fresh, fresh_prob = None, ("crash", "")
+            if prob is None and out != fresh:
+                prob = ("differs-from-fresh-object", "render %d of the same object gives %r, a fresh equal object %r" % (
+                    i + 1, out, fresh))
+        res.sig(("synr", lexer != "nolexer", tuple(sorted(dev)), i, seq[i] != seq[0], prob[0] if prob else "ok"),
+                nontrivial=i > 0)
+        if prob:
+            again = i > 0 and fresh_prob is None
+            res.violate(("syntax/rerender/" if again else "syntax/") + prob[0], case,
+                        "render %d of %d on consoles (width, encoding) %r%s: %s" % (
+                            i + 1, len(seq), seq, " -- a fresh equal object renders correctly there" if again else "", prob[1]))
+            return
+
+
+def _rr_cases(tier):
+    for code in _rr_sources(tier):
+        for lexer in _rr_lexers(tier):
+            for dev in R_DEVS:
+                for rng in _ranges(code):
+                    for seq in R_SEQS:
+                        yield code, lexer, dev, rng, seq
+
+
+def _part_synr(sh, tier, res):
+    for idx, (code, lexer, dev, rng, seq) in enumerate(_rr_cases(tier)):
+        if idx % sh["n"] != sh["i"]:
+            continue
+        if idx % 64 == sh["i"] and deadline_passed():
+            res.capped = True
+            break
+        check_rerender(code, lexer, dev, rng, [list(x) for x in seq], res)
+        res.count("rerender_histories")
+        if idx % 4999 == 0:
+            res.sample({"part": "synr", "code": code, "lexer": lexer, "dev": dev, "range": rng, "seq": seq})
 
 
 # ------------------------------------------------------------------ part synh (Syntax histories in one process)
@@ -635,8 +782,29 @@ def gen_module(shape, b, pre, post, trail, final_nl):
 SPECIAL_SHAPES = ["flat+ff", "flat+ls", "nested+ff", "nested+ls"]
 
 
+TB_CONSOLES = {"utf-8": ("utf-8", False), "ascii": ("ascii", False), "latin-1": ("latin-1", False),
+               "lw": ("utf-8", True)}
+
+
+def _tb_console(name):
+    from rich.console import Console
+    enc, lw = TB_CONSOLES[name or "utf-8"]
+    c = Console(file=_EncFile(enc), width=100, height=25, force_terminal=False, color_system=None,
+                legacy_windows=lw, _environ={})
+    assert c.options.ascii_only == (not enc.startswith("utf"))
+    return c
+
+
 def _tb_cases(tier):
-    return itertools.chain(_tb_cases_plain(tier), _tb_cases_special(tier))
+    """Every module shape (word_wrap off) on a utf-8 and on an ascii console; the latin-1 and the legacy_windows console
+    on the sub-product without trailing blank lines."""
+    for case in itertools.chain(_tb_cases_plain(tier), _tb_cases_special(tier)):
+        yield case
+        if not case["ww"]:
+            yield dict(case, con="ascii")
+        if case["trail"] == 0 and case["final_nl"] and not case["ww"]:
+            yield dict(case, con="latin-1")
+            yield dict(case, con="lw")
 
 
 def _tb_cases_special(tier):
@@ -673,7 +841,6 @@ _RE_FRAME = re.compile(r"^(\S+\.py):(\d+) in (\S+)$")
 def render_traceback(case, directory, modname, keep=False):
     """Writes the module, executes it, renders the traceback. -> (text, frames, path, output | exception).
     keep=True leaves the file in place (history steps rewrite one path)."""
-    from rich.console import Console
     from rich.traceback import Traceback
     text, frames = gen_module(case["shape"], case["b"], case["pre"], case["post"], case["trail"], case["final_nl"])
     path = os.path.join(directory, modname + ".py")
@@ -698,8 +865,7 @@ def render_traceback(case, directory, modname, keep=False):
         src = text.expandtabs(4).split("\n")
         for ln, _fn in frames:       # harness sanity: linecache sees the file the way the generator does
             assert linecache.getline(path, ln).rstrip("\n").expandtabs(4) == src[ln - 1], (path, ln)
-        console = Console(file=io.StringIO(), width=100, height=25, force_terminal=False, color_system=None,
-                          legacy_windows=False, _environ={})
+        console = _tb_console(case.get("con"))
         try:
             console.print(Traceback.from_exception(et, ev, tb, extra_lines=case["extra"], word_wrap=case["ww"],
                                                    indent_guides=case["ig"]))
@@ -722,7 +888,9 @@ def _tb_blocks(out, path):
     """-> list of (header lineno, function, [inner lines of the block])"""
     blocks = []
     for line in out.split("\n"):
-        if not (line.startswith(GUIDE + " ") and line.endswith(" " + GUIDE)):
+        # panel border: U+2502, or "|" on an ascii-only console
+        if not ((line.startswith(GUIDE + " ") and line.endswith(" " + GUIDE)) or
+                (line.startswith("| ") and line.endswith(" |"))):
             continue
         inner = line[2:-2]
         m = _RE_FRAME.match(inner.rstrip())
@@ -739,7 +907,10 @@ def _judge_traceback(case, text, frames, path, out):
     k = _leading_blank(L, T)
     blocks = _tb_blocks(out, path)
     prob = None
-    if [(b[0], b[1]) for b in blocks] != frames:
+    if [b[1] for b in blocks] == [f[1] for f in frames] and [b[0] for b in blocks] != [f[0] for f in frames]:
+        prob = ("header-lineno", "frame headers %r; the traceback entries of the exception (tb_lineno) are %r" % (
+            [(b[0], b[1]) for b in blocks], frames))
+    elif [(b[0], b[1]) for b in blocks] != frames:
         prob = ("frames", "frame headers %r, frames of the exception %r" % ([(b[0], b[1]) for b in blocks], frames))
     clipped = False
     parsed = [_parse_numbered(blk[2])[0] for blk in blocks]
@@ -786,7 +957,8 @@ def check_traceback(case, directory, modname, res):
     text, frames, path, out = render_traceback(case, directory, modname)
     L, T = _src_lines(text, 4)
     k = _leading_blank(L, T)
-    base_sig = ("tb", case["shape"], k > 0, case["extra"], case["trail"] > 0, case["ig"], case["ww"])
+    base_sig = ("tb", case["shape"], k > 0, case["extra"], case["trail"] > 0, case["ig"], case["ww"],
+                case.get("con", "utf-8"))
     if isinstance(out, Exception):
         res.violate(_crash_key("traceback", out), case, "%s: %s | module %r" % (type(out).__name__, out, text))
         res.sig(base_sig + ("crash",))
@@ -795,6 +967,168 @@ def check_traceback(case, directory, modname, res):
     if prob:
         res.violate("traceback/" + prob[0], case, "%s | module %r" % (prob[1], text))
     res.sig(base_sig + (clipped, prob[0] if prob else "ok"))
+
+
+# ------------------------------------------------------------------ part tbk (frame kinds x position in the chain)
+# A chain module -> f1 -> .. -> fd; the leaf raises. Every calling level wraps its call in one of K_KINDS, the
+# leaf wraps its raise in one of LEAF_KINDS: frames that only propagate, frames that run more code while the
+# exception unwinds (finally body, except + bare raise, except + raise .. from, __exit__ of a with block),
+# generator frames, and (catch="module") extraction inside the frame that caught the exception, on a later line.
+# Oracle: the entries of the exception's __traceback__ chain, walked here (tb_lineno), and the file's lines.
+K_KINDS = ["plain", "finally", "reraise", "raisefrom", "with", "gen"]
+LEAF_KINDS = ["plain", "finally", "with"]
+
+
+def _wrap(kind, stmt, ind, lvl):
+    """-> (lines of the wrapped statement at indentation `ind`, helper definitions at module level)"""
+    if kind == "plain":
+        return [ind + "a%d = 1" % lvl, ind + stmt, ind + "b%d = 2" % lvl], []
+    if kind == "finally":
+        return [ind + "try:", ind + "    " + stmt, ind + "finally:", ind + "    c%d = 1" % lvl, ind + "    d%d = 2" % lvl], []
+    if kind == "reraise":
+        return [ind + "try:", ind + "    " + stmt, ind + "except Exception:", ind + "    c%d = 1" % lvl, ind + "    raise"], []
+    if kind == "raisefrom":
+        return [ind + "try:", ind + "    " + stmt, ind + "except Exception as e%d:" % lvl, ind + "    c%d = 1" % lvl,
+                ind + "    raise KeyError('k%d') from e%d" % (lvl, lvl)], []
+    if kind == "with":
+        return [ind + "with CM():", ind + "    " + stmt, ind + "z%d = 1" % lvl], []
+    if kind == "gen":
+        return [ind + "for _ in g%d():" % lvl, ind + "    pass"], ["def g%d():" % lvl, "    yield 1", "    " + stmt, ""]
+    raise AssertionError(kind)
+
+
+def gen_kinds_module(b, kinds, leaf, catch):
+    """kinds[i] wraps the call made by level i (level 0 = module level); `leaf` wraps the raise of the deepest
+    level. catch: "harness" (the exception leaves the module) | "module" (the module catches it and calls
+    HOOK() two lines later, where the Traceback is built)."""
+    d = len(kinds)
+    lines = [""] * b
+    lines += ["class CM:", "    def __enter__(self):", "        return self", "    def __exit__(self, *exc):",
+              "        done = 1", "        return False", ""]
+    raise_stmt = "raise ValueError('boom')"
+    defs = []                      # deepest function first
+    for lvl in range(d, 0, -1):
+        stmt = raise_stmt if lvl == d else "f%d()" % (lvl + 1)
+        body, helpers = _wrap(leaf if lvl == d else kinds[lvl], stmt, "    ", lvl)
+        defs += helpers + ["def f%d():" % lvl] + body + [""]
+    lines += defs
+    body, helpers = _wrap(kinds[0] if d else leaf, "f1()" if d else raise_stmt, "    " if catch == "module" else "", 0)
+    lines += helpers
+    if catch == "module":
+        lines += ["try:"] + body + ["except Exception:", "    p = 1", "    q = 2", "    HOOK()"]
+    else:
+        lines += body
+    return "\n".join(lines) + "\n"
+
+
+def _kinds_cases(tier):
+    quick = tier == "quick"
+    for d in range(0, 3 if quick else 4):
+        for kinds in itertools.product(K_KINDS, repeat=d):
+            for leaf in LEAF_KINDS:
+                for catch in ("harness", "module"):
+                    for b in ((0, 2) if quick else (0, 1, 3)):
+                        for extra in ((0, 3) if quick else (0, 1, 3)):
+                            for con in (("utf-8", "ascii") if quick else ("utf-8", "ascii", "latin-1", "lw")):
+                                yield {"part": "tbk", "kinds": list(kinds), "leaf": leaf, "catch": catch, "b": b,
+                                       "extra": extra, "con": con, "ig": True, "ww": False}
+
+
+def _walk_chain(ev, tb):
+    """The stacks of an exception, outermost exception first, each a list of (file, tb_lineno, function)."""
+    stacks = []
+    while True:
+        frames = []
+        t = tb
+        while t is not None:
+            frames.append((t.tb_frame.f_code.co_filename, t.tb_lineno, t.tb_frame.f_code.co_name))
+            t = t.tb_next
+        stacks.append(frames)
+        nxt = ev.__cause__ if ev.__cause__ is not None else (None if ev.__suppress_context__ else ev.__context__)
+        if nxt is None or nxt.__traceback__ is None:
+            return stacks
+        ev, tb = nxt, nxt.__traceback__
+
+
+def check_kinds(case, directory, modname, res):
+    from rich.traceback import Traceback
+    res.evaluations += 1
+    text = gen_kinds_module(case["b"], case["kinds"], case["leaf"], case["catch"])
+    path = os.path.join(directory, modname + ".py")
+    assert len(path) < 70, path
+    with open(path, "w", encoding="utf-8") as f:
+        f.write(text)
+    linecache.clearcache()
+    holder = {}
+
+    def build(et, ev, tb):
+        # the independent walk comes first; then the code under test extracts from the same live frames
+        holder["stacks"] = _walk_chain(ev, tb)
+        try:
+            holder["tb"] = Traceback.from_exception(et, ev, tb, extra_lines=case["extra"], word_wrap=case["ww"],
+                                                    indent_guides=case["ig"])
+        except Exception as e:   # noqa: BLE001
+            holder["tb"] = e
+
+    def hook():
+        build(*sys.exc_info())
+
+    try:
+        try:
+            exec(compile(text, path, "exec"), {"__name__": modname, "__file__": path, "HOOK": hook})
+        except Exception:   # noqa: BLE001 -- the generated module's own exception
+            et, ev, tb = sys.exc_info()
+            assert case["catch"] == "harness", "module was to catch its exception: %r" % (ev,)
+            build(et, ev, tb.tb_next)        # drop the harness frame
+            del tb, ev
+        assert "stacks" in holder, "generated module did not raise"
+        stacks = holder["stacks"]
+        assert all(fn == path for st in stacks for fn, _ln, _name in st), stacks
+        frames = [(ln, name) for st in reversed(stacks) for _fn, ln, name in st]   # rich shows the cause first
+        out = holder["tb"]
+        if not isinstance(out, Exception):
+            console = _tb_console(case["con"])
+            try:
+                console.print(out)
+                out = console.file.getvalue()
+            except Exception as e:   # noqa: BLE001
+                out = e
+    finally:
+        holder.clear()
+        try:
+            os.remove(path)
+        except OSError:
+            pass
+        linecache.clearcache()
+    sig = ("tbk", len(case["kinds"]), tuple(sorted(set(case["kinds"]))), case["leaf"], case["catch"], len(stacks),
+           case["con"], case["extra"])
+    if isinstance(out, Exception):
+        res.violate(_crash_key("traceback", out), case, "%s: %s | module %r" % (type(out).__name__, out, text))
+        res.sig(sig + ("crash",))
+        return
+    prob, _clipped, _parsed = _judge_traceback(case, text, frames, path, out)
+    if prob:
+        res.violate("traceback/" + prob[0], case, "%s | module %r" % (prob[1], text))
+    res.sig(sig + (prob[0] if prob else "ok",),
+            nontrivial=bool(set(case["kinds"] + [case["leaf"]]) - {"plain"}) or case["catch"] == "module")
+
+
+def _part_tbk(sh, tier, res):
+    directory = tempfile.mkdtemp(prefix="vf_c17_")
+    try:
+        for idx, case in enumerate(_kinds_cases(tier)):
+            if idx % sh["n"] != sh["i"]:
+                continue
+            if deadline_passed():
+                res.capped = True
+                break
+            check_kinds(case, directory, "c17k_%d_%d" % (sh["i"], idx), res)
+            res.count("tb_frame_kind_cases")
+            if idx % 911 == 0:
+                res.sample(case)
+    finally:
+        shutil.rmtree(directory, ignore_errors=True)
+        linecache.clearcache()
 
 
 # ------------------------------------------------------------------ part tbh (rewrite histories of one path)
@@ -939,7 +1273,11 @@ def plan(tier, seed):
     # traceback shards first: they are the cheap part and must not be the one a wall cap cuts off
     nh = 8 if tier == "quick" else 16
     nsh = 4 if tier == "quick" else 16
-    return [{"part": "synh", "i": i, "n": nsh} for i in range(nsh)] + \
+    nk = 8 if tier == "quick" else 32
+    nr = 16 if tier == "quick" else 64
+    return [{"part": "tbk", "i": i, "n": nk} for i in range(nk)] + \
+           [{"part": "synr", "i": i, "n": nr} for i in range(nr)] + \
+           [{"part": "synh", "i": i, "n": nsh} for i in range(nsh)] + \
            [{"part": "tbh", "i": i, "n": nh} for i in range(nh)] + \
            [{"part": "tb", "i": i, "n": nt} for i in range(nt)] + \
            [{"part": "syn", "i": i, "n": ns} for i in range(ns)]
@@ -953,6 +1291,10 @@ def run_shard(sh, tier, seed):
         _part_tbh(sh, tier, res)
     elif sh["part"] == "synh":
         _part_synh(sh, tier, res)
+    elif sh["part"] == "synr":
+        _part_synr(sh, tier, res)
+    elif sh["part"] == "tbk":
+        _part_tbk(sh, tier, res)
     else:
         _part_tb(sh, tier, res)
     return res
@@ -967,7 +1309,7 @@ def describe(tier, seed, res):
                 "line_range (a,b) with -1<=a<=b<=n+2 and no range under the base options (line numbers, start_line 1, "
                 "monokai, width 60); sources of <%d lines additionally every range x each of the %d single option "
                 "deviations (line_numbers off, start_line 5/99, highlight_lines, word_wrap, code_width 10/6, indent_guides, "
-                "theme ansi_dark, width 20, tab_size 2) and every %s of deviations x {no range, (2,3)}; sources of %d lines "
+                "theme ansi_dark, width 20, tab_size 2, console encoding ascii/latin-1 = ascii_only, legacy_windows) and every %s of deviations x {no range, (2,3)}; sources of %d lines "
                 "every single deviation x {no range, (2,3), (1,2)}. Traceback: %d generated modules = 3 shapes x leading blank "
                 "lines x statements before the raise x lines after the call x trailing blank lines 0..3 x final newline x "
                 "extra_lines%s, executed and rendered at width 100, each under a path of its own; plus %d rewrite histories "
@@ -978,7 +1320,18 @@ def describe(tier, seed, res):
                 "{blank, plain, form-feed-in-string line, U+2028/U+0085-in-comment line} containing a special line; the "
                 "traceback modules have 4 variants with such a line before the raise. Syntax histories: %d histories "
                 "of events {Syntax.from_path(file .e), Syntax(code, alias e)} x e in %s x %d codes%s, all ordered pairs%s, each "
-                "in a forked child of a fresh worker that has rendered nothing. A case is non-trivial when at least one source line "
+                "in a forked child of a fresh worker that has rendered nothing. "
+                "Option product (P5): for those shorter sources and lexers %s the full product indent_guides x console "
+                "encoding {utf-8, ascii} x line_numbers x word_wrap x every range. Every traceback module is rendered on a "
+                "utf-8 and on an ascii console (latin-1 and legacy_windows consoles on the sub-product without trailing blank "
+                "lines). Frame kinds: %d modules = chains module -> f1 -> .. of depth <=%d where every calling level wraps its "
+                "call in one of %s and the leaf wraps its raise in one of %s, x {exception leaves the module, module catches "
+                "it and builds the Traceback two lines later} x leading blank lines x extra_lines x consoles; expected frames "
+                "= the tb_lineno entries of the exception's __traceback__/__cause__/__context__ chain walked by the harness. "
+                "Re-rendering: %d histories = sources over %d line kinds x lexers %s x %d option sets x every range x "
+                "{same console three times, width 60 utf-8 / width 20 ascii / width 60 utf-8}: ONE Syntax object rendered "
+                "three times, each rendering judged by the oracle and compared with a fresh equal object. "
+                "A case is non-trivial when at least one source line "
                 "is shown (Syntax); every traceback case is (a history step when the file content changed). distinct = distinct outcome signatures. This is not the full "
                 "product of the options (deviation bound %d)." % (
                     nsrc, top, len(LINES), LEXERS, top, len(_opt_vectors(1)),
@@ -990,6 +1343,8 @@ def describe(tier, seed, res):
                     sum(1 for _ in _synh_cases(tier)), H_ALIASES, len(H_CODES),
                     "" if tier == "quick" else " x {no range, (2,3)}",
                     "" if tier == "quick" else " and triples over the first code",
+                    list(PRODUCT_LEXERS), sum(1 for _ in _kinds_cases(tier)), 2 if tier == "quick" else 3, K_KINDS,
+                    LEAF_KINDS, sum(1 for _ in _rr_cases(tier)), 2 if tier == "quick" else 3, _rr_lexers(tier), len(R_DEVS),
                     2 if tier == "quick" else 3),
         "assumptions": [
             "source lines = code.expandtabs(tab_size).split('\\n'); blank lines after the last non-blank line may be shown or not",
@@ -1000,11 +1355,16 @@ def describe(tier, seed, res):
             "ranges with numbers shown)",
             "backspace, VT, form feed and CR are dropped by every rich Text by design (rich.control) and are ignored "
             "in the comparison; U+2028, U+0085 and a form feed do not end a source line (only \\n does)",
-            "Pygments is trusted as the tokenizer; frame line numbers are CPython's, cross-checked against the generator",
+            "Pygments is trusted as the tokenizer; frame line numbers are CPython's (tb_lineno of the traceback entries, "
+            "walked by the harness before rich extracts), cross-checked against the generator for the plain shapes",
+            "on an ascii-only console the panel border is '|' and no indent guides are drawn; under legacy_windows the "
+            "failing-line pointer is '> '",
         ],
         "coverage": {"sources": nsrc, "source_lexer_units": res.counters.get("syn_units", 0),
                      "traceback_rewrite_histories": res.counters.get("tb_histories", 0),
-                     "syntax_histories": res.counters.get("syn_histories", 0)},
+                     "syntax_histories": res.counters.get("syn_histories", 0),
+                     "rerender_histories": res.counters.get("rerender_histories", 0),
+                     "traceback_frame_kind_cases": res.counters.get("tb_frame_kind_cases", 0)},
     }
 
 
@@ -1012,6 +1372,14 @@ def replay(case):
     res = Result()
     if case.get("part") == "syn":
         check_syntax(case["code"], case["lexer"], case.get("dev") or {}, case.get("range"), res)
+    elif case.get("part") == "synr":
+        check_rerender(case["code"], case["lexer"], case.get("dev") or {}, case.get("range"), case["seq"], res)
+    elif case.get("part") == "tbk":
+        directory = tempfile.mkdtemp(prefix="vf_c17_")
+        try:
+            check_kinds(case, directory, "c17k_replay", res)
+        finally:
+            shutil.rmtree(directory, ignore_errors=True)
     else:
         directory = tempfile.mkdtemp(prefix="vf_c17_")
         try:
